@@ -28,6 +28,7 @@ opkinds! {
     Unlink = 5, 2;         // (p, s)
     SetWeak = 6, 2;        // (p, c)
     ClearWeak = 7, 1;      // (p)
+    UpOnly = 96, 1;        // (h): upgrade h.w in a callback and let the result go (a pure weak look-up)
     UpStore = 8, 3;        // (h, q, s): upgrade h.w, store into q.s[s]
     UpRoot = 9, 2;         // (h, r): upgrade h.w, store into root slot r
     Garbage = 10, 0;
